@@ -21,7 +21,8 @@ Pipes == {[comb |-> c, items |-> <<m, n>>, cap |-> k] :
 Dos == {[comb |-> c, fail |-> f, rv |-> b, items |-> <<>>, cap |-> 0] :
           c \in Combs \cap {"do"}, b \in BOOLEAN,
           f \in UNION {{g \in [1..n -> 0..n] : \A i \in 1..n : g[i] \in {0, i}} : n \in 2..MaxInputs}}
-Configs == Linear \cup Joins \cup Pipes \cup Dos
+Chaoses == {[comb |-> c, kind |-> k, items |-> <<>>, cap |-> 0] : c \in Combs \cap {"chaos"}, k \in ChaosKinds}
+Configs == Linear \cup Joins \cup Pipes \cup Dos \cup Chaoses
 
 MCInit == \E c \in Configs : InitFor(c)
 MCSpec == MCInit /\ [][Next]_gvars /\ Fair
